@@ -200,7 +200,17 @@ pub fn run(ctx: &Ctx) -> PropResult {
             1 => rng.range_i128(0, D - 1),
             _ => *rng.pick(&[1i128, D - 1, D / 2]),
         };
-        let (a_tod, tag): (i128, &'static str) = match rng.below(5) {
+        let subs = |rng: &mut Rng| -> i128 { match rng.below(3) { 0 => *rng.pick(&[0i128, 1, 999, 1_000, 1_001, 999_999, 1_000_000, 1_000_001, 499_999_999, 500_000_000, 999_000_000, 999_999_000, 999_999_999]), 1 => rng.range_i128(0, 999) * 1_000_000 + rng.range_i128(0, 999_999), _ => rng.range_i128(0, NS - 1) } };
+        let (a_tod, tag): (i128, &'static str) = match rng.below(7) {
+            5 | 6 => {
+                // same second of the day, sub-second parts independent: the order of the milli / micro / nano digit
+                // groups need not be the order of the times (…001000000 is later than …000999999)
+                let sec = (b_tod / NS) * NS;
+                let b2 = sec + subs(rng);
+                let a2 = sec + subs(rng);
+                judge_dt_pair(rec, (a_day, a2), (b_day, b2), "dt/same-second-other-subsecond");
+                return;
+            }
             0 => (0, "dt/a-at-midnight"),
             1 => (b_tod, "dt/equal-time"),
             2 => ((b_tod - 1).max(0), "dt/a-1ns-before-b-time"),
